@@ -173,8 +173,8 @@ func runC16(c *Ctx) Verdict {
 	var verdict Verdict
 	var startErr error
 	var t0, t1 time.Time
-	var hist []kapacitor.BatchQueries
-	var histErr error
+	var hist, listed []kapacitor.BatchQueries
+	var histErr, listErr error
 	res := c.World(cfg, func() {
 		d, err := harness.NewDaemon(harness.DaemonOpts{Influx: fi})
 		if err != nil {
@@ -199,6 +199,10 @@ func runC16(c *Ctx) Verdict {
 			done := simrt.Expect("StopTask after failed StartBatching", 3_000_000, time.Hour)
 			d.TM.StopTask("B")
 			done()
+			// what recording a batch task does: a fresh, never started ExecutingTask is asked for the queries of a span, which are then run
+			if rt, err := kapacitor.NewExecutingTask(d.TM, task); err == nil {
+				listed, listErr = rt.BatchQueries(t0, t0.Add(30*time.Second))
+			}
 			return
 		}
 		half := time.Duration(sc.RunS) * time.Second / 2
@@ -231,6 +235,13 @@ func runC16(c *Ctx) Verdict {
 		}
 		if len(fi.Queries) > 0 {
 			return Fail("undeclared-dbrp/queried", "the query names database otherdb which the task did not declare, yet %d queries were issued", len(fi.Queries))
+		}
+		n := 0
+		for _, l := range listed {
+			n += len(l.Queries)
+		}
+		if listErr == nil && n > 0 {
+			return Fail("undeclared-dbrp/listed", "the query names database otherdb which the task did not declare, yet BatchQueries (what a recording of the task runs against InfluxDB) lists %d queries for a 30s span instead of refusing", n)
 		}
 		return Pass()
 	}
